@@ -247,6 +247,9 @@ class C12(Prop):
                 self._encode_ok(acc, D[name], (name,), "single")
             acc.sample({"kind": "subset", "days": ["MONDAY", "SUNDAY"], "observed": self.tools.weekdays_to_hexadecimal({D.MONDAY, D.SUNDAY})})
         elif kind == "masks":
+            from ..monitors.keepsake import Keep
+
+            keep = Keep(limit=300)
             for mask in range(256):
                 acc.ev()
                 if 2 <= mask <= 254 and mask & 1:
@@ -271,6 +274,7 @@ class C12(Prop):
                     acc.violation("decode-accepted-invalid", f"mask {mask} accepted -> {r!r}", {"mask": mask})
                     continue
                 want = {n for n, b in BITS.items() if mask & b}
+                keep.add(r, f"set returned for mask {mask}")
                 try:
                     rk = self.tools.bit_summary_to_days(sum_weekdays_bit=mask)
                     self.dec_rec.drain()
@@ -289,6 +293,7 @@ class C12(Prop):
                         acc.violation("round-trip", f"mask {mask} -> set -> {h}", {"mask": mask})
                 except Exception as exc:
                     acc.violation("encode-raised", f"re-encode of decoded mask {mask} raised {type(exc).__name__}", {"mask": mask})
+            keep.verify(acc, "decode-result-changed-later", "the time all other masks had been decoded")
             # a caller that edits what it was handed must not change what the next caller gets
             for mask in range(2, 255, 2):
                 acc.ev()
